@@ -14,7 +14,7 @@ import common
 
 RULE = ("cases are (operation, family, size): operations fromdict, asdict, asdict_simplified, migration_matrices, in_generations, "
         "to_ms, dumps(yaml, simplified), dumps(json, resolved), discrete_demographic_events; families islands (clique, one rate), ring, "
-        "path, star (one shared rate), ring with distinct rates, ancestry chain, many epochs, many pulses, two-rate clique-with-holes, "
+        "path, star (one shared rate), ring with distinct rates, ancestry chain, admixture ladder, dense ancestry, many epochs, many pulses, two-rate clique-with-holes, "
         "binary split tree; sizes 2..12 step 2 (every family), 16, 24, 32 where the count stays under the budget; non-trivial = size "
         ">= 6; distinct by triple")
 
@@ -87,7 +87,28 @@ def families():
         ds[0]["epochs"][0]["end_time"] = 100 / 2 if n > 1 else 0
         return dict(time_units="generations", demes=ds)
 
-    return {"islands": islands, "ring": ring, "ring-distinct": lambda n: ring(n, True), "path": path, "star": star,
+    def ladder(n):
+        ds = []
+        for i in range(n):
+            anc = ["d%d" % j for j in (i - 1, i - 2) if j >= 0]
+            d = dict(name="d%d" % i, epochs=[dict(start_size=100)])
+            if anc:
+                d.update(ancestors=anc, start_time=10.0 * (n - i), proportions=[1.0] if len(anc) == 1 else [0.5, 0.5])
+            ds.append(d)
+        return dict(time_units="generations", demes=ds)
+
+    def dense_ancestry(n):
+        ds = []
+        for i in range(n):
+            anc = ["d%d" % j for j in range(max(0, i - 3), i)]
+            d = dict(name="d%d" % i, epochs=[dict(start_size=100)])
+            if anc:
+                k = len(anc)
+                d.update(ancestors=anc, start_time=10.0 * (n - i), proportions=[1.0 / k] * k)
+            ds.append(d)
+        return dict(time_units="generations", demes=ds)
+
+    return {"ladder": ladder, "dense-ancestry": dense_ancestry, "islands": islands, "ring": ring, "ring-distinct": lambda n: ring(n, True), "path": path, "star": star,
             "chain": chain, "epochs": epochs, "pulses": pulses, "holes": holes, "tree": tree}
 
 
